@@ -28,7 +28,34 @@ def specBlit (width buflen : Nat) (g : Geo) (imgpix : Nat) : String :=
       else ".")
   else "-"
 
+def hex8 (n : Nat) : String :=
+  let h := toHex [UInt8.ofNat (n / 16777216 % 256), UInt8.ofNat (n / 65536 % 256), UInt8.ofNat (n / 256 % 256), UInt8.ofNat (n % 256)]
+  h
+
+def showCellsHex (buf : List UInt32) : String :=
+  ",".intercalate ((buf.zipIdx).map fun (c, j) => if c == bufCell j then "." else "?" ++ hex8 c.toNat)
+
+def cellsOfBytes (bytes : List UInt8) : List UInt32 :=
+  (List.range (bytes.length / 4)).map fun k =>
+    UInt32.ofNat ((bytes.getD (4 * k) 0).toNat + 256 * (bytes.getD (4 * k + 1) 0).toNat + 65536 * (bytes.getD (4 * k + 2) 0).toNat + 16777216 * (bytes.getD (4 * k + 3) 0).toNat)
+
 def c19 (toks : List String) : String :=
+  if toks.head? = some "blit16" then
+    match toks.tail.mapM String.toNat? with
+    | some [width, buflen, left, top, right, bottom, bw, bh, npix] =>
+      let g : Geo := ⟨left, top, right, bottom, bw⟩
+      let buf := (List.range buflen).map bufCell
+      let data : Array UInt8 := ((List.range npix).flatMap fun k =>
+        let px := (k * 2749 + 7) % 65536
+        [UInt8.ofNat (px % 256), UInt8.ofNat (px / 256)]).toArray
+      match Codec.decompress ⟨bw, bh, 16, false, data⟩ with
+      | .ok bytes =>
+        let r := blit buf width g (cellsOfBytes bytes)
+        (match r.2 with | .ok _ => "ok " | .err _ => "E " | .panic _ => "P ") ++ showCellsHex r.1.buf ++ "\t-"
+      | .err _ => "E " ++ showCellsHex buf ++ "\t-"
+      | .panic _ => "P " ++ showCellsHex buf ++ "\t-"
+    | _ => "bad-case"
+  else
   if toks.head? = some "blitz" then
     match toks.tail.mapM String.toNat? with
     | some [width, buflen, left, top, right, bottom, bw, bh] =>
